@@ -106,3 +106,14 @@ claim("C19",
       "candidates are replayed concretely.",
       TB, "symbolic execution (CrossHair+z3) of matrix operations with symbolic cell values/row lengths/index sets against a list model; watchdog for non-termination",
       "DESIGN.md 3/C19")
+
+claim("C20",
+      "Bounded symbolic execution of the Newick, NEXUS, PHYLIP and FASTA readers on three input families fed through a pure-Python stream: "
+      "(1) every prefix of every corpus document (all block structures), the cut point a symbolic integer; (2) every single-character "
+      "replace/delete/insert edit at a symbolic position with a symbolic choice of character from the token alphabet; (3) arbitrary symbolic "
+      "strings over the token alphabet up to a length bound (Newick, and as the body of a NEXUS TREE statement). Oracle: the reader terminates "
+      "(per-path watchdog, concrete replay of hang candidates), and either returns well-formed trees / a matrix whose rows and columns match "
+      "the dimensions declared in the text it actually read, or raises a DataParseError (or the documented ValueError for an empty source); "
+      "AttributeError/IndexError/TypeError/KeyError/RecursionError/... from inside dendropy are failures.",
+      TB, "symbolic execution (CrossHair+z3) of the readers over symbolic truncation points, edit positions/characters and symbolic strings; watchdog for non-termination",
+      "DESIGN.md 3/C20")
